@@ -58,6 +58,7 @@ def run(chk):
     chk.exhaustive = True
     by_b = {}
     boundaries = [b'B', b'a=b', b'x y', b"----WebKitFormBoundary7MA4YWxkTrZu0gW", mplib.rand_boundary(rng), mplib.rand_boundary(rng)]
+    specs, metas = [], []
     for _ in range(6000 if thorough else 700):
         b = rng.choice(boundaries)
         if b.endswith(b' '):
@@ -74,8 +75,11 @@ def run(chk):
             ctype = ctype.replace('multipart/form-data', rng.choice(['Multipart/Form-Data', 'MULTIPART/FORM-DATA']))
         if rng.random() < 0.15:
             ctype += '; charset=utf-8'
-        res = fl.post(buf, body, ctype, chunked=rng.random() < 0.4, rng=rng)
-        t = fl.to_trace(body, buf, 'roundtrip', fs, res)
+        specs.append({'buf': buf, 'body': body, 'ctype': ctype, 'what': 'forms+files', 'chunked': rng.random() < 0.4, 'seed': rng.randrange(10 ** 9),
+                      'in_thread': rng.random() < 0.2})
+        metas.append((b, fs, body, buf, ctype))
+    for (b, fs, body, buf, ctype), res in zip(metas, fl.post_batch(specs, time_limit=10.0)):
+        t = fl.to_trace(body, buf, 'roundtrip', fs, res, full=not res['hang'])
         by_b.setdefault(b, []).append((t, {'ctype': ctype, 'buf': buf, 'fields': fs}))
         chk.count(1, ('rt', b, body, buf))
     t0 = next(iter(by_b.values()))[0]
